@@ -181,7 +181,7 @@ def run(res, facts, tier):
             callers[c['from']] += 1
     for k, cnt in sorted(callers.items(), key=lambda kv: facts.name[kv[0]]):
         fn = short(facts.name[k])
-        if '/verif/' in facts.F[k]['loc']:
+        if common.FIXTURE_PREFIX in facts.F[k]['loc']:
             continue
         site = 'addNode in %s' % fn
         if fn.startswith('XPath::find'):
